@@ -16,7 +16,12 @@ type Value interface{}
 
 type IntV struct{ T string }  // every integer, pointer, interface, map, chan, func value, string id
 type BoolV struct{ T string } // Bool-sorted
-type SliceV struct{ Ref, Off, Len, Cap string }
+// Tail: the slice was cut with an explicit high bound in this function, so elements of its backing array beyond Len may
+// be visible through another slice value; an append that fits its capacity writes them in place.
+type SliceV struct {
+	Ref, Off, Len, Cap string
+	Tail               bool
+}
 type StructV struct {
 	F map[string]Value
 }
@@ -30,7 +35,7 @@ type NoneV struct{}
 
 func (s SliceV) isNil() string { return eq(s.Ref, "0") }
 
-var nilSlice = SliceV{"0", "0", "0", "0"}
+var nilSlice = SliceV{"0", "0", "0", "0", false}
 
 // ---------------------------------------------------------------------------------------------
 
@@ -151,6 +156,7 @@ type Ctx struct {
 	byteMems    map[string]bool // A2 symbols holding byte memories: every cell is in [0,255]
 	byteArrs    map[string]bool // A1 symbols holding bytes
 	frameWrites map[string]bool // heap keys written at refs that are not fresh allocations
+	atArgs      map[string]bound  // arg0.. of the call whose at-clauses are being evaluated
 	freshRefs   map[string]bool
 	frameCallee []string
 	variantAt   map[int]string
@@ -172,7 +178,7 @@ type Ctx struct {
 // noteWrite records a write for the function frame and, inside loops, whether it may hit a pre-existing object.
 func (c *Ctx) noteWrite(s *State, key, ref string) {
 	if !(c.freshRefs[ref] || strings.HasPrefix(ref, "(sub.") && c.freshRefs[innerRef(ref)]) {
-		c.frameEffect(s, key)
+		c.frameEffectRef(s, key, ref)
 	}
 	if s.nonFresh != nil {
 		stamp := c.allocSeq[ref]
@@ -483,7 +489,7 @@ func flatten(v Value, t types.Type) []string {
 func unflatten(ts []string, t types.Type) (Value, []string) {
 	switch u := t.Underlying().(type) {
 	case *types.Slice, *types.Array:
-		return SliceV{ts[0], ts[1], ts[2], ts[3]}, ts[4:]
+		return SliceV{ts[0], ts[1], ts[2], ts[3], false}, ts[4:]
 	case *types.Struct:
 		st := StructV{F: map[string]Value{}}
 		if u.NumFields() == 0 {
@@ -531,7 +537,7 @@ func zeroValue(t types.Type) Value {
 func (c *Ctx) freshValue(s *State, name string, t types.Type) Value {
 	switch u := t.Underlying().(type) {
 	case *types.Slice, *types.Array:
-		sv := SliceV{c.fresh(name+"#ref", sInt), c.fresh(name+"#off", sInt), c.fresh(name+"#len", sInt), c.fresh(name+"#cap", sInt)}
+		sv := SliceV{c.fresh(name+"#ref", sInt), c.fresh(name+"#off", sInt), c.fresh(name+"#len", sInt), c.fresh(name+"#cap", sInt), false}
 		s.assume(c.sliceWF(sv))
 		return sv
 	case *types.Struct:
@@ -856,7 +862,7 @@ func (c *Ctx) allocSlice(s *State, elem types.Type, length, capacity string, zer
 		}
 		c.heapSet(s, key, sA2, store(m, ref, content))
 	}
-	return SliceV{ref, "0", length, capacity}
+	return SliceV{ref, "0", length, capacity, false}
 }
 
 // allocFact: every reference read from the state denotes nil or an already allocated object (ghost set X.alloc).
